@@ -81,13 +81,24 @@ def _inverse(text, table):
     return out
 
 
+_PERSISTENT_TABLE = []
+
+
 def _decode_one(item):
     import torch
     from pero_ocr.ocr_engine.pytorch_ocr_engine import greedy_decode_ctc, PytorchEngineLineOCR
     from pero_ocr.decoding.decoders import GreedyDecoder, BLANK_SYMBOL
     paths, seed = item
     nc = _CFG["C"]
-    chars = TABLE[:nc - 1] + [ENGINE_BLANK]
+    # the character table varies from call to call (rotated alphabet), either as a fresh list or as ONE long-lived list object
+    # edited in place: the text must be mapped through the table that is passed in, whatever was decoded before
+    rot = seed % 3
+    letters = (TABLE[rot:] + TABLE[:rot])[:nc - 1]
+    if seed % 2:
+        chars = letters + [ENGINE_BLANK]
+    else:
+        _PERSISTENT_TABLE[:] = letters + [ENGINE_BLANK]
+        chars = _PERSISTENT_TABLE
     rec = {"paths": [list(p) for p in paths], "outcome": "ok", "eng": [], "alone": [], "ocr": [], "logits_same": True}
     try:
         sc = render(paths, nc, seed)
@@ -96,7 +107,7 @@ def _decode_one(item):
         eng = greedy_decode_ctc(torch.from_numpy(sc.copy()), chars)
         rec["eng"] = [_inverse(x, chars) for x in eng]
         # stand-alone decoder on the normalised log-probabilities of each line (frames x symbols)
-        gd = GreedyDecoder(TABLE[:nc - 1] + [BLANK_SYMBOL])
+        gd = GreedyDecoder(letters + [BLANK_SYMBOL])
         alone = []
         for i in range(len(paths)):
             lp = torch.log_softmax(torch.from_numpy(sc[i].T.astype(np.float64).copy()), dim=1).numpy()
